@@ -293,7 +293,8 @@ def deposit (o : Ops α) (cx : NumCtx) (cfg : Config α) (ps : Pool α) (longKey
       | .ok w2 =>
         (.ok (r, tag), { amount := s.amount + r.gmAmount, wallet := w2, actions := s.actions ++ [(true, r)] })
 
-/-- `GmxV2Market.withdraw(amount)`; `none` = withdraw everything -/
+/-- `GmxV2Market.withdraw(amount)`; `none` = withdraw everything.  (After the repairs: finiteness of the argument, sign, holding,
+    pricing, finiteness of the two output amounts, and only then holding, wallet and log.) -/
 def withdraw (o : Ops α) (cx : NumCtx) (cfg : Config α) (ps : Pool α) (longKey shortKey : String)
     (s : State α) (amount? : Option α) : Except Err (LPResult α) × State α :=
   let amount := amount?.getD s.amount
@@ -303,6 +304,9 @@ def withdraw (o : Ops α) (cx : NumCtx) (cfg : Config α) (ps : Pool α) (longKe
   match outputAmount o cfg ps amount with
   | .error e => (.error e, s)
   | .ok r =>
+    -- a held amount whose USD value leaves the double range prices to `inf` / `nan` token amounts: rejected before anything
+    -- changes (2f5f4ac), so `toRat` below is only ever applied to finite numbers
+    if !(o.isFinite r.longAmount && o.isFinite r.shortAmount) then (.error .demeter, s) else
     let w := Wallet.credit cx s.wallet longKey (o.toRat r.longAmount)
     let w := Wallet.credit cx w shortKey (o.toRat r.shortAmount)
     (.ok r, { amount := s.amount - r.gmAmount, wallet := w, actions := s.actions ++ [(false, r)] })
